@@ -308,6 +308,11 @@ def rule_errors(chk, comp):
     cfg = M.Cfg(comp)
     stages = ["preprocess::preprocess", "parser::parse", "type_check", "check_layout"]
     disp = cfg.calls("CompileErrorExt::display") + cfg.calls("::display")
+    # a private helper that renders the error (`fn make_text_error(err, sm) -> CompileError`) counts at each of its call sites
+    f = chk.facts
+    helpers = {b["path"] for b in f.crates[comp["crate"]]["bodies"] if "thir" in b and b["path"] != comp["path"] and
+               any(short(c.get("fn") or "") == "display" for c in F.exprs(b["thir"], "Call"))}
+    disp += [(bb, t) for bb, t in cfg.calls() if cfg.callee(t) in helpers]
     chk.floor("C08.floor/error-renderers", len({bb for bb, _ in disp}), 4, "err.display(&source_manager) renderings in compile", where(comp))
     for s in stages:
         sites = cfg.calls(s)
@@ -326,6 +331,49 @@ def rule_errors(chk, comp):
 
 # ------------------------------------------------------------------ str slicing
 
+def rule_render_source_line(chk):
+    """SourceManager::write_source_for_error evaluated (finite-map reader with modelled strings) on a file whose lines
+    hold multi-byte characters, for an error at every character position: rendering the source line never aborts.
+    Returns True when the function was readable (the shape rule on str slices is then not needed for it)."""
+    import interp as I
+    f = chk.facts
+    new = f.fn("new", "rssl_text", self_ty="SourceManager")
+    add = f.fn("add_file", "rssl_text")
+    w = f.fn("write_source_for_error", "rssl_text")
+    if not (new and add and w):
+        return False
+    ip = I.Interp(f, max_depth=8)
+    ip.max_loop = 4096
+    texts = ["ab\nx" + "\u00e9" * 400 + "\nq", "\u20ac" * 150 + "z", "y" + "\U0001F600" * 120, ""]
+    try:
+        sm = ip.apply(new, [])
+        for i, c in enumerate(texts):
+            ip.apply(add, [sm, I.Enum("FileName", None, {"0": "f%d" % i}), c])
+    except I.Unknown:
+        return False
+    base = 0
+    n = 0
+    bad = []
+    for c in texts:
+        b = c.encode("utf-8")
+        bounds = [o for o in range(len(b) + 1) if not (o < len(b) and (b[o] & 0xC0) == 0x80)]     # tokens start on character boundaries
+        for o in bounds[:8] + bounds[8:-3:41] + bounds[-3:]:
+            n += 1
+            try:
+                ip.apply(w, [sm, I.Opaque("formatter"), I.Enum("Option", "Some", {"0": I.Enum("SourceLocation", None, {"0": base + o})})])
+            except I.Unknown as e:
+                if "panicking" not in str(e):
+                    return False    # not readable: leave it to the shape rule
+                bad.append((o, str(e)))
+        base += len(b) + 1
+    ok = not bad
+    chk.ob("C08.strslice/write_source_for_error/render", ok,
+           "%d error positions in lines with multi-byte characters: the source line is rendered without aborting" % n if ok else
+           "rendering the source line for an error at byte %d aborts (%s): with non-ASCII text on the line, compile() panics while printing a diagnostic (%d of %d positions)"
+           % (bad[0][0], bad[0][1][:120], len(bad), n), where(w), sample={"positions": n, "aborting": len(bad)})
+    return True
+
+
 def rule_strslice(chk, reach):
     """`&text[a..b]` on a str aborts when a or b falls inside a multi-byte character, and source files contain
     arbitrary UTF-8 (comments, strings). Every str range-index in the library crates must have bounds that are
@@ -334,12 +382,16 @@ def rule_strslice(chk, reach):
     split-off remainder - never a position plus an arbitrary byte count (min / max / + n)."""
     f = chk.facts
     n = 0
+    rendered = rule_render_source_line(chk)
     for b in f.bodies.values():
         if "thir" not in b or b["crate"] == "metal_invoker":
             continue      # every library crate: diagnostics are rendered through trait objects the call graph does not follow
         owner = short(b.get("parent") or b["path"])
         sites = [c for c in F.exprs(b["thir"], "Call") if short(c.get("fn") or "") == "index" and c.get("self") == "str" and len(c.get("args", [])) > 1]
         if not sites:
+            continue
+        if rendered and owner == "write_source_for_error":
+            n += 2 * len(sites)     # decided by evaluation above
             continue
         lets = {}
         split_args = set()
